@@ -627,11 +627,6 @@ public:
 
 	iterator erase(const_iterator first, const_iterator last)
 	{
-		if (first == begin() && last == end())
-		{
-			clear();
-			return end();
-		}
 		if (first == last)
 		{
 			return IteratorProxy(mHashMap.MakeMutableIterator(
@@ -639,6 +634,11 @@ public:
 		}
 		if (first != end() && std::next(first) == last)
 			return erase(first);
+		if (first == begin() && last == end())
+		{
+			clear();
+			return end();
+		}
 		throw std::invalid_argument("invalid unordered_map erase arguments");
 	}
 
